@@ -5,7 +5,7 @@ import bisect, json, os, shutil, struct, subprocess, sys
 from . import common as K
 
 PROP = "C05"
-RULE = ("cases = (symbol source, ~40 lookups): every non-emptied ELF / Mach-O / PE fixture (thin files; the debug-link companions are served from the same directory), ELF objects generated with gcc/ld from assembly with "
+RULE = ("cases = (symbol source, ~40 lookups): every non-emptied ELF / Mach-O / PE fixture (thin files; the debug-link companions are served from the same directory), ELF objects generated with gcc/ld from assembly (executables, and shared objects stripped down to .dynsym) with "
         "arbitrary symbol layouts (sized, unsized, overlapping, NOTYPE-with-size, several text sections, non-zero base, with/without build id), generated Breakpad .sym files and generated jitdump files. "
         "Lookups at entry addresses, address+size-1, address+size, in gaps, below the first and above the last symbol, random 32-bit values - in all three address forms where the source supports them "
         "(relative, stated virtual address = base + relative, file offset via the segment ranges); each batch is repeated from 8 threads in different orders on one shared symbol map. "
@@ -58,6 +58,22 @@ def _gen_elf(rng, d, k):
     open(s, "w").write("\n".join(asm) + "\n")
     if subprocess.run(["gcc", "-c", s, "-o", o], capture_output=True).returncode != 0:
         return None
+    if rng.chance(1, 4):
+        # a shared object, usually stripped: its functions are then known through .dynsym only (sized symbols without the end entries
+        # that .symtab symbols get), so the bytes between a symbol's stated end and the next entry still belong to it
+        so = os.path.join(d, "g%d.so" % k)
+        linker = rng.choice(["ld", "ld", "ld.lld"])
+        if subprocess.run([linker, "-shared", o, "-o", so] + rng.choice([[], ["--build-id"]]), capture_output=True).returncode != 0:
+            return None
+        if rng.chance(3, 4):
+            if subprocess.run(["strip", so, "-o", exe], capture_output=True).returncode != 0:
+                return None
+            os.remove(so)
+        else:
+            os.rename(so, exe)
+        for f in (s, o):
+            os.remove(f)
+        return exe
     if rng.chance(1, 3):
         # lld lays segments out back to back in the file while their addresses move to the next page: abutting file ranges with different deltas
         args = ["ld.lld", o, "-o", exe, "-e", "_start"] + rng.choice([[], ["--build-id"], ["-pie"], ["-z", "separate-code"]])
